@@ -21,7 +21,9 @@ EXPLANATION = (
     "site in a parallel context is accepted only if it lies in a loop over a container that no reachable code "
     "ever fills (dead loop, recomputed on every run); (D5) the work-stealing claim is one atomic "
     "read-modify-write; (D6) a synchronisation token must sort after every contig queued before it and before "
-    "every contig queued after it under ContigTask's order.")
+    "every contig queued after it under ContigTask's order; (D10) a thread_local in the compression path is the ZSTD "
+    "context or a buffer whose earlier content cannot reach the bytes produced: the segment-compression layer is interpreted "
+    "from a fresh and from used buffers and must give the same bytes.")
 UNDECIDED = ("that ZSTD output is a function of its input only; that rayon's indexed collect preserves order (library "
              "contracts); that no two coexisting items compare equal under the Ord impls used by the sorts")
 
